@@ -26,7 +26,7 @@ func init() {
 	register(ruleDef{ID: "R8.4", Prop: "C08", Tier: "quick", Floor: 8,
 		Title: "request validation: an index the operation needs but does not find, and a request-named supervoxel that is not in the body, end the operation with an error before anything is changed",
 		Fn:    ruleR8_4})
-	register(ruleDef{ID: "R8.5", Prop: "C08", Tier: "quick", Floor: 5,
+	register(ruleDef{ID: "R8.5", Prop: "C08", Tier: "quick", Floor: 3,
 		Title: "index cache coherence: every store write or delete of a label index is accompanied by the update or invalidation of its cache entry",
 		Fn:    ruleR8_5})
 	register(ruleDef{ID: "R8.6", Prop: "C08", Tier: "quick", Floor: 4,
@@ -141,14 +141,7 @@ func ruleR8_1(r *Run) {
 		}
 		for _, nd := range matrix[op] {
 			names := strings.Split(nd.name, "|")
-			is := func(in ssa.Instruction) bool {
-				for _, n := range names {
-					if isCallNamedInstr(in, n) {
-						return true
-					}
-				}
-				return false
-			}
+			is := func(in ssa.Instruction) bool { return w.performs(in, names, 2) }
 			construct := fmt.Sprintf("labelmap.%s:passes:%s", op, nd.name)
 			bad := fmt.Sprintf("%s can succeed without %s: the mapping, the label indices and the stored voxels no longer describe the same bodies", op, nd.name)
 			switch {
@@ -603,7 +596,7 @@ func ruleR8_3(r *Run) {
 				okAll = false
 				continue
 			}
-			if p, ok := ia.X.(*ssa.Parameter); !ok || p.Name() != "ancestors" {
+			if p, ok := ia.X.(*ssa.Parameter); !ok || !isVersionSlice(p.Type()) {
 				okAll = false
 			}
 		}
